@@ -155,6 +155,9 @@ def gen_strategy(rng: SimRng, cls, classes=(0, 1), explicit_manager=None, manage
             mcls = rng.pick(manager_pool or MANAGERS)
             p["budget_manager"] = gen_manager(rng, mcls, budget=budget, classes=classes)
             p["budget"] = None if rng.chance(0.5) else budget
+            if p["budget"] is not None and rng.chance(0.3):
+                # a manager that leaves its budget open while the strategy names one
+                p["budget_manager"]["params"]["budget"] = None
         else:
             p["budget"] = budget
         if cls in ("FixedUncertainty", "CognitiveDualQueryStrategyFixUn"):
@@ -601,7 +604,7 @@ class C03Check(StreamCheckBase):
         p = subject["params"]
         bm = p.get("budget_manager") if isinstance(p.get("budget_manager"), dict) else None
         w = (bm or subject)["params"].get("w", p.get("window_size", p.get("cognition_window_size", 10)))
-        budget = p.get("budget") or (bm["params"]["budget"] if bm else 0.1)
+        budget = (bm["params"]["budget"] or 0.1) if bm else (p.get("budget") or 0.1)
         n = g.pick([20, 40, 80, 150, 300] + ([400, 400] if self.tier == "thorough" else []))
         if subject["cls"] in COGNITIVE + ["StreamDensityBasedAL"]:
             n = min(n, 150 if self.tier != "thorough" else 250)
@@ -884,7 +887,7 @@ class C04Check(StreamCheckBase):
         p = subject["params"]
         bm = p.get("budget_manager") if isinstance(p.get("budget_manager"), dict) else None
         w = (bm or subject)["params"].get("w", 100)
-        budget = p.get("budget") or (bm["params"]["budget"] if bm else 0.1)
+        budget = (bm["params"]["budget"] or 0.1) if bm else (p.get("budget") or 0.1)
         n = g.pick([30, 60, 120, 250, 400])
         family = g.pick(ADVERSARIES)
         sc = {"engine": "streamsim", "mode": "C04", "subject": subject, "family": family}
@@ -920,9 +923,11 @@ class C04Check(StreamCheckBase):
         bm = p.get("budget_manager") if isinstance(p.get("budget_manager"), dict) else None
         mp = bm["params"] if bm else p
         budget = mp.get("budget")
-        if budget is None:
+        if budget is None and not bm:
             budget = p.get("budget")
         if budget is None:
+            # documented: a given budget manager is used as it is (its open budget defaults to 0.1), the
+            # strategy's own budget is then not used
             budget = 0.1
         if cls == "PeriodicSampling":
             return {"kind": "counter", "budget": budget, "slack": 0.0}
@@ -1125,7 +1130,7 @@ class C10Check(StreamCheckBase):
         p = subject["params"]
         bm = p.get("budget_manager") if isinstance(p.get("budget_manager"), dict) else None
         w = (bm or subject)["params"].get("w", p.get("window_size", p.get("cognition_window_size", 10)))
-        budget = p.get("budget") or (bm["params"]["budget"] if bm else 0.1)
+        budget = (bm["params"]["budget"] or 0.1) if bm else (p.get("budget") or 0.1)
         n = g.pick([12, 30, 60, 120, 250])
         if subject["cls"] in COGNITIVE + ["StreamDensityBasedAL"]:
             n = min(n, 120)
